@@ -207,8 +207,38 @@ class OpenModel:
                 if contains(strip_ids(event_args(g, fo)[1]) if len(event_args(g, fo)) > 1 else (), lambda x: x == e):
                     if n not in self.chunk_next:
                         self.chunk_next.append(n)
+        # the same loop written with a forward adaptor (`chunk_ids.iter().copied().try_for_each(|id| ..)`): the closure's entry is where the
+        # next chunk id is taken, its parameter is the id, the adaptor's receiver is what is iterated
+        self.chunk_entries = {}          # closure entry node -> (element expr, iterator expr)
+        if not self.chunk_next:
+            for n in P.calls(ITER_ADAPTORS):
+                for ci in g.closure_insts.get(n, []):
+                    first = 2 if ci.body["kind"] == "Closure" else 1
+                    elem = ("cl_arg", ci.id, first)
+                    for fo in self.file_opens:
+                        if len(event_args(g, fo)) > 1 and contains(event_args(g, fo)[1], lambda x: x == elem):
+                            self.chunk_entries[(ci.id, 0)] = (elem, strip_ids(event_args(g, n)[0]))
         self.applies = inlined_calls(g, r"as api::state_machine::StateMachine<.*>>::apply$", P.live)
         self.seen = None
+
+    def new_chunk(self, pi, learn):
+        """does leaving product node pi along this edge take the next chunk id?"""
+        if self.chunk_entries and self.P.gnode(pi) in self.chunk_entries:
+            return True
+        if self.chunk_next:
+            cn = set(self.chunk_next)
+            for o, v in norm_learn(learn or ()):
+                if origin_call(o) in cn and v in OKV:
+                    return True
+        return False
+
+    def chunk_elems(self):
+        out = [("okval", strip_ids(("call", cpath(self.g.term(n)), tuple(event_args(self.g, n))))) for n in self.chunk_next]
+        out += [e for (e, _it) in self.chunk_entries.values()]
+        return out
+
+    def chunk_iters(self):
+        return [strip_ids(event_args(self.g, n)[0]) for n in self.chunk_next] + [it for (_e, it) in self.chunk_entries.values()]
 
     def fact_flags(self, o, v):
         """classification of a learned (origin, value) into recovery facts"""
@@ -311,7 +341,7 @@ class OpenModel:
         x, y = strip_ids(e[2]), strip_ids(e[3])
         truth_eq = (v == "true") == (e[1] == "Eq")
 
-        elems = [("okval", strip_ids(("call", cpath(self.g.term(n)), tuple(event_args(self.g, n))))) for n in self.chunk_next]
+        elems = self.chunk_elems()
 
         def core(z):
             while isinstance(z, tuple) and z:
@@ -359,10 +389,9 @@ class OpenModel:
                 if f(pi, qi, learn) == "err":
                     pend = True
                     can = eof = reached = nonzero = other = False
+            if self.new_chunk(pi, learn):
+                gap = False
             for o, v in norm_learn(learn):
-                if origin_call(o) in cn_set:
-                    if v in OKV:
-                        gap = False
                 fl = self.fact_flags(o, v)
                 if "can_trunc" in fl:
                     can = True
@@ -419,7 +448,7 @@ def run(ctx, rep):
     rep.floor("R09.3", "File::set_len events in Op(open)", len(M.set_len), 1)
     rep.floor("R09.5", "WALRecord::decode calls in Op(open)", len(M.decodes), 1)
     rep.floor("R09.4", "chunk file opens in Op(open)", len(M.file_opens), 1)
-    rep.floor("R09.4", "loop over chunk ids", len(M.chunk_next), 1)
+    rep.floor("R09.4", "loop over chunk ids", len(M.chunk_next) + len(M.chunk_entries), 1)
     # R09.3
     for n in M.set_len:
         bad = None
@@ -483,8 +512,7 @@ def run(ctx, rep):
     ok_sort = False
     for n in M.sorts:
         recv = strip_ids(event_args(g, n)[0])
-        for cn in M.chunk_next:
-            it = strip_ids(event_args(g, cn)[0])
+        for it in M.chunk_iters():
             if contains(it, lambda x: x == recv) or it == recv:
                 ok_sort = True
     if ok_sort:
